@@ -159,11 +159,12 @@ class Engine(OpsMixin):
         self.inputs = {}       # name -> (kind, sym/terms) for model extraction
         self.path_violated = []
 
-    def explore(self, run_path, prefixes, budget_paths=None, budget_s=None, on_path=None):
+    def explore(self, run_path, prefixes, budget_paths=None, budget_s=None, on_path=None, on_unknown=None):
         """run_path(engine) executes the harness once. Returns leftover prefixes when a budget is hit."""
         self.pending = [list(p) for p in prefixes]
         t0 = time.time()
         n = 0
+        self.unknown_paths = []
         while self.pending:
             if (budget_paths and n >= budget_paths) or (budget_s and time.time() - t0 > budget_s):
                 break
@@ -178,7 +179,17 @@ class Engine(OpsMixin):
                 continue
             except Violation as v:
                 outcome = ("violation", v.args[0])
-            except (Unsupported, SolverUnknown, _Return, _Break, _Continue, z3.Z3Exception):
+            except SolverUnknown as e:
+                # one undecided path does not end the exploration: its path condition is handed to the candidate search,
+                # the other paths are still explored, the harness stays inconclusive (at most 3 such paths, then stop)
+                if on_unknown is None or len(self.unknown_paths) >= 3:
+                    raise
+                self.unknown_paths.append(str(e))
+                on_unknown(self, e)
+                self.stats["paths"] += 1
+                n += 1
+                continue
+            except (Unsupported, _Return, _Break, _Continue, z3.Z3Exception):
                 raise
             except RecursionError:
                 raise Unsupported("recursion limit")
